@@ -13,6 +13,8 @@ if [ -f tools/translate_eq.py ]; then python3 tools/translate_eq.py; fi
 if [ -f tools/translate_scan.py ]; then python3 tools/translate_scan.py; fi
 if [ -f tools/translate_cursor.py ]; then python3 tools/translate_cursor.py; fi
 if [ -f tools/translate_ptr.py ]; then python3 tools/translate_ptr.py; fi
+if [ -f tools/translate_map.py ]; then python3 tools/translate_map.py; fi
+if [ -f tools/translate_ser.py ]; then python3 tools/translate_ser.py; fi
 cd coq
 # the development = the files listed in coq/FILES (work in progress on disk that is not listed is not built, not audited)
 if [ ! -f Makefile ] || [ _CoqProject -nt Makefile ] || [ FILES -nt Makefile ]; then
